@@ -183,6 +183,20 @@ func TestBitmapCodec(t *testing.T) {
 			case "reuse-clear":
 				target.Clear()
 			}
+			if rapid.IntRange(0, 3).Draw(t, l+"damagedFirst") == 0 {
+				// a damaged copy first, into the same target: rejected or loaded as something else; the target is
+				// then reused (with or without Clear) for the intact bytes
+				bad, kind := damageBytes(t, l+"dmg", data, 0)
+				var derr error
+				noPanic(t, fmt.Sprintf("round %d, damaged bitmap (%s, %d of %d bytes)", round, kind, len(bad), len(data)), func() {
+					_, derr = encoding.BitmapUnmarshal(target, bad)
+				})
+				classes = append(classes, "damaged-unmarshal-before", "damaged="+kind, fmt.Sprintf("damaged-rejected=%v", derr != nil))
+				if rapid.Bool().Draw(t, l+"clearAfterDamaged") {
+					target.Clear()
+				}
+				tk += "-after-damaged"
+			}
 			n, err := encoding.BitmapUnmarshal(target, buf)
 			if err != nil {
 				t.Fatalf("BitmapUnmarshal: %v", err)
